@@ -64,7 +64,7 @@ var specialNames = []string{
 	"Twice_K0", "Twice_S4", "TwiceIn_K2", "InIgn_K0", "InIgn_S4", "RetI_K0", "RetI_K1", "NewDec0", "NewDec1", "NewDec2",
 	"InEmb_K0", "InEmb_S4", "InEmb_K2", "InEmb_S5",
 	"InSp_K0", "InGG_K0", "InSG_K0", "InNG_K0", "InNG_S4", "InKK_K0", "InKU_K0", "InUK_K2", "InAnon_K0", "InAnon_S4", "InAnon_K2",
-	"BIopt_S6", "BIopt_K3",
+	"BIopt_S6", "BIopt_K3", "BIanon_S6", "BIanon_K3",
 	"InLast_K0", "InLast_S4", "OutLast_K2K3", "OutLast_S5S6", "InIgnMid_K0", "InIgnMid_S4", "OutIgnMid_K2K3", "OutIgnMid_S5S6",
 	"Clo_K0_a", "Clo_K0_b", "Clo_K0_c", "Clo_K1_a", "Clo_K1_b", "Clo_K1_c", "Clo_S0_a", "Clo_S0_b", "Clo_S4_a", "Clo_S4_b", "CloDep_K2_a", "CloDep_K2_b", "CloIn_K3_a", "CloIn_K3_b",
 }
